@@ -1,6 +1,8 @@
 mod backend;
+mod extra;
 mod gen;
 mod lockstep;
+mod mutants;
 mod ops;
 mod probe;
 mod rng;
@@ -41,6 +43,40 @@ fn main() {
             let count: usize = args[4].parse().unwrap();
             let n = lockstep::run(prof, seed, count, &args[5]);
             eprintln!("lockstep: wrote {} histories", n);
+        }
+        "vec" => {
+            let seed: u64 = args[2].parse().unwrap();
+            let count: usize = args[3].parse().unwrap();
+            extra::vec_contract(seed, count).print();
+        }
+        "locks" => {
+            let seed: u64 = args[2].parse().unwrap();
+            let iters: usize = args[3].parse().unwrap();
+            extra::locks(seed, iters).print();
+        }
+        "readfaults" => {
+            let seed: u64 = args[2].parse().unwrap();
+            let pairs: usize = args[3].parse().unwrap();
+            extra::readfaults(seed, pairs, args[4].parse().unwrap(), args[5].parse().unwrap()).print();
+        }
+        "writefaults" => {
+            let seed: u64 = args[2].parse().unwrap();
+            let pairs: usize = args[3].parse().unwrap();
+            extra::writefaults(seed, pairs, args[4].parse().unwrap(), args[5].parse().unwrap()).print();
+        }
+        "writefault1" => {
+            extra::writefault_one(args[2] == "3", args[3].parse().unwrap(), args[4].parse().unwrap());
+        }
+        "mutants" => {
+            // cfbh mutants <ro|rw> <seed> <count> <outfile>
+            let seed: u64 = args[3].parse().unwrap();
+            let count: usize = args[4].parse().unwrap();
+            mutants::run(&args[2], seed, count, &args[5]).print();
+        }
+        "cycles" => {
+            let seed: u64 = args[2].parse().unwrap();
+            let count: usize = args[3].parse().unwrap();
+            extra::cycles(seed, count).print();
         }
         "uptable" => {
             // every scalar value whose CFB upper-casing is not the identity
